@@ -21,34 +21,50 @@ def parseInts (xs : List String) : Option (List Int) :=
     | some v, some l => some (v :: l)
     | _, _ => none) (some [])
 
-/-- one step of a `cons` op: `c<time>` = Consensus.ChangeView (true), `t<time>` = Consensus.TryChangeView. -/
-def parseStep (x : String) : Option (Bool × Int) :=
+/-- one step of a `cons` op: `c<time>` Consensus.ChangeView, `t<time>` Consensus.TryChangeView,
+    `o<time>` DPOSManager.OnChangeView, `r` a ResetView message arriving at the manager. -/
+inductive ConsStep | change (t : Int) | try_ (t : Int) | timer (t : Int) | resetMsg
+
+def parseStep (x : String) : Option ConsStep :=
   match x.toList with
-  | 'c' :: rest => (int? (String.ofList rest)).map (fun t => (true, t))
-  | 't' :: rest => (int? (String.ofList rest)).map (fun t => (false, t))
+  | ['r'] => some .resetMsg
+  | 'c' :: rest => (int? (String.ofList rest)).map .change
+  | 't' :: rest => (int? (String.ofList rest)).map .try_
+  | 'o' :: rest => (int? (String.ofList rest)).map .timer
   | _ => none
 
-def parseSteps (xs : List String) : Option (List (Bool × Int)) :=
+def parseSteps (xs : List String) : Option (List ConsStep) :=
   xs.foldr (fun x acc => match parseStep x, acc with
     | some v, some l => some (v :: l)
     | _, _ => none) (some [])
 
+/-- `resets` = number of ResetView messages broadcast so far. -/
 def runCons (forkH height : Nat) (running : Bool) (tol : Int) (n me : Nat) :
-    VState → List (Bool × Int) → List String → Option (List String)
-  | _, [], acc => some acc.reverse
-  | s, (isChange, t) :: xs, acc =>
-    let r := if isChange then consChangeView forkH height tol n me s t
-             else consTryChangeView forkH height running tol n me s t
-    match r with
-    | some s' => runCons forkH height running tol n me s' xs (fmtState s' :: acc)
-    | none => none
+    VState → Nat → List ConsStep → List String → Option (List String)
+  | _, _, [], acc => some acc.reverse
+  | s, resets, x :: xs, acc =>
+    match x with
+    | .change t => match consChangeView forkH height tol n me s t with
+      | some s' => runCons forkH height running tol n me s' resets xs (fmtState s' :: acc)
+      | none => none
+    | .try_ t => match consTryChangeView forkH height running tol n me s t with
+      | some s' => runCons forkH height running tol n me s' resets xs (fmtState s' :: acc)
+      | none => none
+    | .timer t => match mgrOnChangeView forkH height running tol n me s t with
+      | some (s', b) =>
+        let resets' := if b then resets + 1 else resets
+        runCons forkH height running tol n me s' resets' xs ((fmtState s' ++ s!",r{resets'}") :: acc)
+      | none => none
+    | .resetMsg =>
+      runCons forkH height running tol n me s resets xs
+        ((if mgrForwardsResetView forkH height n me then "f1" else "f0") :: acc)
 
 def stepC26 : List String → String
   | "cons" :: forkH :: height :: running :: tol :: n :: me :: off :: steps =>
       match nat? forkH, nat? height, nat? running, int? tol, nat? n, nat? me, nat? off with
       | some f, some h, some r, some tol, some n, some me, some off =>
         match parseSteps steps with
-        | some steps => match runCons f h (r != 0) tol n me ⟨off, 0, false⟩ steps [] with
+        | some steps => match runCons f h (r != 0) tol n me ⟨off, 0, false⟩ 0 steps [] with
           | some outs => " ".intercalate outs
           | none => "panic"
         | none => "bad-op"
